@@ -538,7 +538,11 @@ func (w *World) CheckOrdering(o *Obs) []Violation {
 		if e.Kind == "load" {
 			for _, s := range w.P.Sources {
 				if s.ID == e.Subj {
-					ls = append(ls, participant{s.ID, s.OrderClass, s.Order})
+					ord := s.Order
+					if pass == "second" && s.Order2 != nil {
+						ord = *s.Order2 // the order the loader answers with by then
+					}
+					ls = append(ls, participant{s.ID, s.OrderClass, ord})
 				}
 			}
 		}
